@@ -88,7 +88,7 @@ impl Config {
             dedup: false,
             deadline: None,
             expected_letters: vec![],
-            tolerate_divergent_replay: false,
+            tolerate_divergent_replay: true,
         }
     }
 }
@@ -421,13 +421,39 @@ pub fn closure<S: System>(fresh: &(dyn Fn() -> S + Sync), cfg: &Config) -> Repor
                             break;
                         }
                         let choices = &level[k];
-                        let parent = rebuild(fresh, choices);
+                        let divergent = |r: &mut Report, d: usize, m: Mismatch| {
+                            let chd: Vec<u16> = choices[..=d].to_vec();
+                            let ops_r = render(fresh, &chd);
+                            let mut tags = m.tags.clone();
+                            tags.push("outcome_depends_on_hash_order".to_string());
+                            r.count("divergent_replays", 1);
+                            r.violation(Violation { class: m.class, detail: m.detail, tags, case: json!({"sub": cfg.sub, "ctx": cfg.ctx, "choices": chd, "history": ops_r, "repeat": 40}) });
+                        };
+                        let parent = match rebuild_checked(fresh, choices) {
+                            Ok(s) => s,
+                            Err((d, m)) => {
+                                if !cfg.tolerate_divergent_replay {
+                                    machinery(&format!("divergent replay: prefix step {} of {:?} failed on rebuild: {} {}", d, choices, m.class, m.detail));
+                                }
+                                divergent(&mut r, d, m);
+                                continue;
+                            }
+                        };
                         r.count("traces", 1);
                         let ops = parent.enabled();
                         for (i, op) in ops.iter().enumerate() {
                             let mut child = match parent.try_clone() {
                                 Some(s) => s,
-                                None => rebuild(fresh, choices),
+                                None => match rebuild_checked(fresh, choices) {
+                                    Ok(s) => s,
+                                    Err((d, m)) => {
+                                        if !cfg.tolerate_divergent_replay {
+                                            machinery(&format!("divergent replay: prefix step {} of {:?} failed on rebuild: {} {}", d, choices, m.class, m.detail));
+                                        }
+                                        divergent(&mut r, d, m);
+                                        break;
+                                    }
+                                },
                             };
                             r.letter(&S::kind(op));
                             r.count("transitions", 1);
@@ -542,30 +568,7 @@ pub fn replay_repeated<S: System>(fresh: &(dyn Fn() -> S + Sync), choices: &[u16
 }
 
 pub fn replay<S: System>(fresh: &(dyn Fn() -> S + Sync), choices: &[u16]) -> Result<Vec<String>, (Vec<String>, Mismatch)> {
-    let run = || -> Result<Vec<String>, (Vec<String>, Mismatch)> {
-        let mut s = fresh();
-        let mut hist = Vec::new();
-        for &c in choices {
-            let ops = s.enabled();
-            let op = ops.get(c as usize).unwrap_or_else(|| machinery("replay: choice out of range"));
-            hist.push(format!("{:?}", op));
-            let r = catch_unwind(AssertUnwindSafe(|| s.step(op)));
-            let r = match r {
-                Ok(x) => x,
-                Err(_) => Err(Mismatch::new("panic", take_panic())),
-            };
-            if let Err(m) = r {
-                return Err((hist, m));
-            }
-        }
-        Ok(hist)
-    };
-    let a = run();
-    let b = run();
-    match (&a, &b) {
-        (Ok(_), Ok(_)) => {}
-        (Err((_, m1)), Err((_, m2))) if m1.class == m2.class => {}
-        _ => machinery("replay is not deterministic (two runs of the same case disagree)"),
-    }
-    a
+    // The first failing execution is the verdict: a case recorded from a history whose outcome depends on
+    // hash-map iteration order inside the subject (tag outcome_depends_on_hash_order) may pass on some runs.
+    replay_repeated(fresh, choices, 40)
 }
